@@ -219,6 +219,9 @@ def check(pid, tier):
         from . import s18optional
 
         obs += s18optional.all_obligations(pid)  # which member of Optional[T] the emitters convert
+        from . import s20maybenone
+
+        obs += s20maybenone.all_obligations(pid)  # the None short-circuit text and its call sites
     except Exception as e:  # noqa
         import traceback
 
@@ -231,7 +234,7 @@ def check(pid, tier):
                    "explanation": "per union: dec_strict (the property), dec_staged (regression contract pinning the listed findings), enc (exact-class members without containers)"},
         trusted={"member conversions are uninterpreted (induction hypothesis); enc: a conforming value has exactly the class of one member, a method exists iff the class has it, builtin str is total",
                  "S18+S19 precondition: type arguments are hashable; arities 0..4 (each a full proof; larger arities not covered); S19: typing.get_args(typ) returns a tuple, is_union is uninterpreted and does not raise"},
-        functions=["helpers.not_none_type_arg (S18, real AST)", "helpers.is_optional (S19, real AST)", "UnionUnpackerBuilder._add_body", "LiteralUnpackerBuilder._add_body", "pack_union", "pack_literal", "expr_or_maybe_none (through the texts they produce)"],
+        functions=["helpers.not_none_type_arg (S18, real AST)", "helpers.is_optional (S19, real AST)", "common.expr_or_maybe_none (S20, called for real; enumeration)", "UnionUnpackerBuilder._add_body", "LiteralUnpackerBuilder._add_body", "pack_union", "pack_literal", "expr_or_maybe_none (through the texts they produce)"],
         crashes=crashes,
     )
 
